@@ -62,7 +62,13 @@ def main(ck):
       elif r < 0.3:
         extra += 'rgba="0.3 0.4 0.5 0.6" '
       out.append('<geom ' + extra + p)
-    return ''.join(out)
+    x = ''.join(out)
+    # every model gets a camera and a light (two decor geoms each when visualised) and a mocap body with geoms (its own weld
+    # group: category DYNAMIC although it has no dofs)
+    x = x.replace('</worldbody>', '<camera name="cx" pos="0.2 -0.4 0.5"/><light name="lx" pos="0 0 1.5"/><body name="mcx" '
+                  'mocap="true" pos="0.35 0.3 0.4"><geom name="gmcx" type="box" size="0.04 0.05 0.06"/><body name="mcy" '
+                  'pos="0 0 0.1"><geom name="gmcy" type="sphere" size="0.03"/></body></body></worldbody>', 1)
+    return x
 
   def new_scene(m, maxgeom):
     scn = lib.new_struct('mjvScene')
@@ -131,7 +137,10 @@ def main(ck):
       pert.active = int(rng.randint(0, 4))
     cam = lib.new_struct('mjvCamera')
     lib.mjv_defaultCamera(cam)
-    catmask = E.mjCAT_ALL if geomonly or rng.rand() < 0.7 else int(rng.randint(0, 8))
+    if geomonly:
+      catmask = [E.mjCAT_ALL, E.mjCAT_ALL, E.mjCAT_STATIC, E.mjCAT_DYNAMIC, E.mjCAT_DYNAMIC | E.mjCAT_DECOR][rng.randint(5)]
+    else:
+      catmask = E.mjCAT_ALL if rng.rand() < 0.7 else int(rng.randint(0, 8))
     info = dict(xml=xml, state_seed=sseed, option_seed=oseed, geomonly=bool(geomonly), catmask=catmask,
                 flags=np.array(opt.flags).tolist(), geomgroup=np.array(opt.geomgroup).tolist())
     ck.journal(info)
@@ -169,7 +178,8 @@ def main(ck):
         static = int(m.body_weldid[int(m.geom_bodyid[g])]) == 0
         matid = int(m.geom_matid[g])
         alpha = float(m.geom_rgba[g][3]) if matid < 0 or tuple(m.geom_rgba[g]) != (0.5, 0.5, 0.5, 1.0) else float(m.mat_rgba[matid][3])
-        vis = bool(opt.geomgroup[grp]) and (not static or bool(opt.flags[E.mjVIS_STATIC])) and alpha != 0
+        cat = E.mjCAT_STATIC if static else E.mjCAT_DYNAMIC      # static <=> welded to the world; mocap subtrees are dynamic
+        vis = bool(opt.geomgroup[grp]) and bool(cat & catmask) and (not static or bool(opt.flags[E.mjVIS_STATIC])) and alpha != 0
         if vis:
           expect.append(g)
         else:
@@ -207,8 +217,13 @@ def main(ck):
           raise Violation('scene geom %d (model geom %d): %s; %s' % (k, g, '; '.join(bad), info), bucket='faithful-geom')
 
     # ---- capacities
-    caps = sorted(set([0] + [c for c in range(need - 3, need + 4) if c >= 0] +
-                      [int(rng.randint(0, need + 1)) for _ in range(2)]))
+    # every capacity up to the need when that is affordable (an element made of several geoms may run out between two of
+    # them at exactly one capacity), otherwise the boundary values and 40 random ones
+    if need <= 120:
+      caps = list(range(0, need + 4))
+    else:
+      caps = sorted(set([0] + [c for c in range(need - 3, need + 4) if c >= 0] +
+                        [int(rng.randint(0, need + 1)) for _ in range(40)]))
     overflowed = None
     for c in caps:
       info['capacity'] = c
@@ -268,7 +283,7 @@ def main(ck):
       lib.warnings()
     lib.mjv_freeScene(big)
 
-  ck.run_hypothesis(test, st.tuples(model_strategy(), mg.state_seed(), st.integers(0, 2 ** 31 - 1)), ck.budget(30, 300),
+  ck.run_hypothesis(test, st.tuples(model_strategy(), mg.state_seed(), st.integers(0, 2 ** 31 - 1)), ck.budget(24, 300),
                     name='scene', shrink=False)
   ck.extra['stats'] = stats
 
